@@ -1101,6 +1101,12 @@ impl BreakpointRegistry {
 
     /// Remove enabled breakpoint from registry by it number.
     pub fn remove_by_num(&mut self, number: u32) -> Result<Option<BreakpointView<'static>>, Error> {
+        // number 0 is shared by all internal breakpoints (entry point, linker map,
+        // temporary ones), a user has no breakpoint with this number
+        if number == 0 {
+            return Ok(None);
+        }
+
         if let Some(addr) = self.disabled_breakpoints.iter().find_map(|(addr, brkpt)| {
             if brkpt.number == number {
                 return Some(addr);
